@@ -47,7 +47,7 @@ class CallCtx:
     """Per public call: fault plan, delivery schedule, counters."""
     __slots__ = ("id", "tid", "step", "method", "faults", "kinds", "seg", "piece", "eintr",
                  "fired", "reply_faults", "nreply", "sent", "received", "commands",
-                 "socks", "obs", "nevents", "pieces_log", "interrupt_seen")
+                 "socks", "obs", "nevents", "pieces_log", "interrupt_seen", "lat")
 
     def __init__(self, cid, tid, step, method, faults=None, net=None):
         self.id, self.tid, self.step, self.method = cid, tid, step, method
@@ -57,6 +57,7 @@ class CallCtx:
         net = net or {}
         self.seg = net.get("seg") or (0,)
         self.eintr = set(net.get("eintr") or ())
+        self.lat = net.get("lat", 0)
         self.piece = 0
         self.fired = []
         self.nreply = 0
@@ -100,6 +101,7 @@ class World:
         self.net = SimNet(self)
         self.tls_context = SimTLSContext(self) if self.tls else None
         self.max_open = 0
+        self.open_limit = spec.get("open_limit")
         for n in spec.get("nodes", ()):
             node = SimNode(self, n["id"], n.get("opts"))
             self.nodes[n["id"]] = node
@@ -290,10 +292,14 @@ class SimSocket:
         self.created_call = world.ctx().id
         self.created_seq = world.seq
         self.ncmd_sends = 0
+        self.failed_call = None
+        self.closed_seq = None
         world.ctx().socks.append(self.id)
         no = len(world.open_sockets())
         if no > world.max_open:
             world.max_open = no
+        if world.open_limit is not None and no > world.open_limit:
+            world.observe("too-many-open-sockets", sock=self.id, open=no, limit=world.open_limit)
 
     # -- helpers
     def _check_usable(self, what, via_tls):
@@ -325,6 +331,17 @@ class SimSocket:
         self.timeout_set = True
 
     def connect(self, addr, _tls=False):
+        try:
+            return self._connect(addr, _tls)
+        except OSError:
+            self._fail()
+            raise
+
+    def _fail(self):
+        if self.failed_call is None:
+            self.failed_call = self._w.ctx().id
+
+    def _connect(self, addr, _tls=False):
         w = self._w
         f = w.event("connect", self, _addr_detail(addr))
         self._check_usable("connect", _tls)
@@ -354,6 +371,13 @@ class SimSocket:
             self.conn.peer_closed = True
 
     def sendall(self, data, _tls=False):
+        try:
+            return self._sendall(data, _tls)
+        except OSError:
+            self._fail()
+            raise
+
+    def _sendall(self, data, _tls=False):
         w = self._w
         f = w.event("sendall", self, len(data))
         self._check_usable("sendall", _tls)
@@ -409,6 +433,17 @@ class SimSocket:
                       want=w.expect_timeouts[1])
 
     def recv(self, n, _tls=False):
+        try:
+            d = self._recv(n, _tls)
+        except OSError as e:
+            if e.errno != errno.EINTR:
+                self._fail()
+            raise
+        if not d:
+            self._fail()
+        return d
+
+    def _recv(self, n, _tls=False):
         w = self._w
         f = w.event("recv", self, None)
         self._check_usable("recv", _tls)
@@ -453,6 +488,8 @@ class SimSocket:
             w.clock.advance(self.timeout or 0)
             raise _real_socket.timeout("sim: recv would block forever")
         want = ctx.seg[ctx.piece % len(ctx.seg)]
+        if ctx.lat and ctx.piece == 0:
+            w.clock.advance(ctx.lat)      # the server takes simulated time to answer
         ctx.piece += 1
         limit = n if not want else min(n, want)
         if limit <= 0:
@@ -487,10 +524,14 @@ class SimSocket:
         self.close_calls += 1
         if not self.closed:
             self.closed = True
+            self.closed_seq = w.seq
         if f is not None and f["kind"] == "closefail":
             raise OSError(errno.EIO, "sim: close failed")
         if f is not None and f["kind"] == "interrupt":
             _raise_fault(w, f, None)
+
+    def closed_by_seq(self, seq):
+        return self.closed_seq is not None and self.closed_seq <= seq
 
     def fileno(self):
         return -1 if self.closed else 1000 + self.id
